@@ -365,3 +365,26 @@ pub fn denom(m: &HashMap<String, String>) -> Value {
     };
     json!({"reproduced": reproduced, "real": format!("{real:?}"), "spec_accepts": spec, "inputs": {"s": s, "fn": which}})
 }
+
+/// Replays a (channel, denom) counterexample of the protocol section's validation (engine M, C14 / C09).
+pub fn protocfg(m: &HashMap<String, String>) -> Value {
+    let channel = m.get("channel").cloned().unwrap_or_default();
+    let denom = m.get("denom").cloned().filter(|d| !d.is_empty()).unwrap_or_else(|| addr::NATIVE_DENOM.to_string());
+    let cfg = staking::types::UnsafeProtocolChainConfig { account_address_prefix: "osmo".into(), ibc_token_denom: denom.clone(), ibc_channel_id: channel.clone(), minimum_liquid_stake_amount: cosmwasm_std::Uint128::new(1000), oracle_address: None };
+    let real = cfg.validate();
+    // specification, written independently: channel-<optional +><decimal digits, value below 2^64>; ibc/ + 64 bytes
+    let chan_ok = match channel.strip_prefix("channel-") {
+        None => false,
+        Some(rest) => {
+            let digits = rest.strip_prefix('+').unwrap_or(rest);
+            let sig = digits.trim_start_matches('0');
+            !digits.is_empty() && digits.bytes().all(|b| b.is_ascii_digit()) && (sig.len() < 20 || (sig.len() == 20 && sig <= "18446744073709551615"))
+        }
+    };
+    let denom_ok = denom.starts_with("ibc/") && denom.len() == 68;
+    let reproduced = match &real {
+        Ok(c) => !(chan_ok && denom_ok) || c.ibc_channel_id != channel || c.ibc_token_denom != denom,
+        Err(_) => chan_ok && denom_ok,
+    };
+    json!({"reproduced": reproduced, "real": format!("{real:?}"), "spec_accepts": chan_ok && denom_ok, "inputs": {"channel": channel, "denom": denom}})
+}
